@@ -26,3 +26,13 @@ run C16 comb_spec_searcher/class_queue.py 's/                if wp.label not in 
 run C20 comb_spec_searcher/strategies/constructor/cartesian.py 's/\bres\b/result_expr/g'
 # 8 equivalent guard
 run C17 comb_spec_searcher/comb_spec_searcher.py 's/            if self.expand_verified or not self.ruledb.is_verified(label):/            if not self.ruledb.is_verified(label) or self.expand_verified:/'
+# 9 commuted addition in the using-entry update (the text-keyed ghost site no longer matches: fewer obligations, no alarm)
+run C03 comb_spec_searcher/rule_db/forest.py 's/^            shifts\[class_idx\] = current_shift + 1$/            shifts[class_idx] = 1 + current_shift/'
+# 10 a comment inside the registration loop
+run C03 comb_spec_searcher/rule_db/forest.py 's/^            for child_idx, child in enumerate(rule_key.children):$/            # register every child position\n            for child_idx, child in enumerate(rule_key.children):/'
+# 11 swapped comparison operands in the stage service
+run C16 comb_spec_searcher/class_queue.py 's/^        if idx == len(self.expansion_strats):$/        if len(self.expansion_strats) == idx:/'
+# 12 flipped loop guard of the object cache
+run C07 comb_spec_searcher/strategies/rule.py 's/^        while n >= len(self.objects_cache):$/        while len(self.objects_cache) <= n:/'
+# 13 renamed local in the propagation loop
+run C03 comb_spec_searcher/rule_db/forest.py 's/\bparent = self._rules\[rule_idx\].parent$/par = self._rules[rule_idx].parent/; s/self._increase_value(parent, rule_idx)/self._increase_value(par, rule_idx)/; s/self._set_infinite(parent)$/self._set_infinite(par)/'
